@@ -51,11 +51,13 @@ type Solver struct {
 	TimeoutMs int
 	FallbackS int
 	Cross     bool
+	RaceMs    int
+	divMemo   map[int]bool
 	logf      *os.File
 }
 
 func NewSolver(ts *TermStore) *Solver {
-	s := &Solver{ts: ts, TimeoutMs: 3000, FallbackS: 60}
+	s := &Solver{ts: ts, TimeoutMs: 15000, FallbackS: 60, RaceMs: 500}
 	s.Stats.Fallback = map[string]int{}
 	if p := os.Getenv("GOATSYM_SMTLOG"); p != "" {
 		s.logf, _ = os.Create(p)
@@ -156,7 +158,11 @@ func parseModel(txt string, vars []*Term) Model {
 		key := smtVarName(v.name)
 		i := strings.Index(txt, "("+key+" ")
 		if i < 0 {
-			continue
+			key = v.name
+			i = strings.Index(txt, "("+key+" ")
+			if i < 0 {
+				continue
+			}
 		}
 		rest := txt[i+len(key)+2:]
 		rest = strings.TrimSpace(rest)
@@ -212,7 +218,11 @@ func (s *Solver) Check(assertions []*Term, wantModel bool) (Result, Model) {
 		}
 		as = append(as, a)
 	}
+	tq := time.Now()
 	res, m := s.checkZ3(as, wantModel)
+	if d := time.Since(tq); d > 200*time.Millisecond && os.Getenv("GOATSYM_SLOW") != "" {
+		fmt.Fprintf(os.Stderr, "SLOW QUERY %.2fs res=%v n=%d last=%v\n", d.Seconds(), res, len(as), as[0])
+	}
 	if res == Unknown {
 		res, m = s.fallback(as, wantModel)
 	} else if s.Cross {
@@ -234,6 +244,11 @@ func (s *Solver) Check(assertions []*Term, wantModel bool) (Result, Model) {
 			for _, a := range as {
 				if s.ts.Eval(a, m, memo) != 1 {
 					fmt.Fprintf(os.Stderr, "MODEL VALIDATION FAILED for %v\n", a)
+					if os.Getenv("GOATSYM_DUMPMODEL") != "" {
+						fmt.Fprintf(os.Stderr, "  model: %v\n", m)
+						txt, _ := s.script(as, true, "(set-option :produce-models true)\n(set-logic ALL)\n")
+						os.WriteFile("/tmp/badmodel.smt2", []byte(txt), 0o644)
+					}
 					s.Stats.Unknown++
 					return Unknown, nil
 				}
@@ -265,10 +280,46 @@ func (s *Solver) checkZ3(as []*Term, wantModel bool) (Result, Model) {
 	deadline := time.Duration(s.TimeoutMs+5000) * time.Millisecond
 	var res Result = Unknown
 	gotErr := false
+	type altRes struct {
+		r Result
+		m Model
+	}
+	var alt chan altRes
+	raceMs := s.RaceMs
+	if s.hasDiv(as) {
+		raceMs = 1
+	}
+	race := time.After(time.Duration(raceMs) * time.Millisecond)
+	final := time.After(deadline)
+loop:
 	for {
-		l, ok := s.readLine(deadline)
-		if !ok {
-			// hung or died: restart
+		var l string
+		var ok bool
+		select {
+		case l, ok = <-s.lines:
+			if !ok {
+				s.Close()
+				s.Stats.Restarts++
+				return Unknown, nil
+			}
+		case <-race:
+			// z3 is slow on this one: race it against cvc5's integer encoding
+			alt = make(chan altRes, 1)
+			go func() {
+				r, m := s.oneShot("cvc5", []string{"--solve-bv-as-int=sum", "--lang=smt2"}, as, wantModel, s.FallbackS)
+				alt <- altRes{r, m}
+			}()
+			continue
+		case a := <-alt:
+			alt = nil
+			if a.r != Unknown {
+				s.Close() // abandon the z3 query
+				s.Stats.Restarts++
+				s.Stats.Fallback["cvc5-bv-as-int(race)"]++
+				return a.r, a.m
+			}
+			continue
+		case <-final:
 			s.Close()
 			s.Stats.Restarts++
 			return Unknown, nil
@@ -279,18 +330,21 @@ func (s *Solver) checkZ3(as []*Term, wantModel bool) (Result, Model) {
 			fmt.Fprintln(os.Stderr, "z3:", l)
 			continue
 		}
-		if l == "sat" {
+		switch l {
+		case "sat":
 			res = Sat
-			break
-		}
-		if l == "unsat" {
+			break loop
+		case "unsat":
 			res = Unsat
-			break
-		}
-		if l == "unknown" || l == "timeout" {
+			break loop
+		case "unknown", "timeout":
 			res = Unknown
-			break
+			break loop
 		}
+	}
+	if alt != nil {
+		// a cvc5 run is still in flight; let it finish in the background (bounded by its timeout)
+		go func(c chan altRes) { <-c }(alt)
 	}
 	var m Model
 	if res == Sat && wantModel && len(vars) > 0 {
@@ -363,11 +417,22 @@ func (s *Solver) oneShot(bin string, args []string, as []*Term, wantModel bool, 
 	cmd.Stderr = &out
 	cmd.Run()
 	o := out.String()
-	if strings.Contains(o, "(error") {
-		return Unknown, nil
+	// any error reported before the verdict makes the run inconclusive; after an
+	// "unsat" verdict the only possible error is get-value's "cannot get value".
+	verdict := ""
+	for _, l := range strings.Split(o, "\n") {
+		l = strings.TrimSpace(l)
+		if strings.HasPrefix(l, "(error") {
+			if verdict != "unsat" {
+				return Unknown, nil
+			}
+			continue
+		}
+		if verdict == "" && (l == "sat" || l == "unsat" || l == "unknown") {
+			verdict = l
+		}
 	}
-	first := strings.TrimSpace(strings.SplitN(o, "\n", 2)[0])
-	switch first {
+	switch verdict {
 	case "sat":
 		var m Model
 		if wantModel {
@@ -398,4 +463,33 @@ func (s *Solver) fallback(as []*Term, wantModel bool) (Result, Model) {
 		}
 	}
 	return Unknown, nil
+}
+
+// hasDiv: does the query contain a division/remainder (bit-blasting back ends stall on these)?
+func (s *Solver) hasDiv(as []*Term) bool {
+	if s.divMemo == nil {
+		s.divMemo = map[int]bool{}
+	}
+	var rec func(t *Term) bool
+	rec = func(t *Term) bool {
+		if v, ok := s.divMemo[t.id]; ok {
+			return v
+		}
+		r := false
+		switch t.op {
+		case OpSDiv, OpUDiv, OpSRem, OpURem:
+			r = true
+		}
+		for i := 0; i < t.n && !r; i++ {
+			r = rec(t.a[i])
+		}
+		s.divMemo[t.id] = r
+		return r
+	}
+	for _, a := range as {
+		if rec(a) {
+			return true
+		}
+	}
+	return false
 }
